@@ -21,7 +21,8 @@ EXPLANATION = (
     "says a hash-less step is selected only if every required resource is defined and fits. A checkable job cannot "
     "run a command (job kind follows the stored hash; _has_hash mirror coverage is C10's rule). Holds: counter "
     "transitions flag the subtree, reset trigger, seed expression (C10). Decides these clauses; that counts respect "
-    "the limits at every instant follows from them plus the single-threaded event loop, which is assumed."
+    "the limits at every instant follows from them plus the single-threaded event loop, which is assumed. "
+    'Also: the sum of units in use reads only claims and states and has exactly the two conjuncts name/RUNNING (detached running steps still count); every path of after_recycle stores the declared resources; R-C12-5 the open-hold counter is written only by hold()/release() and cleared only by the state-change trigger.'
 )
 ASSUMPTIONS = ["single-threaded asyncio event loop", "a step's command is only started by executor.launch_command"]
 
